@@ -14,6 +14,7 @@ CLAIMED = {
  "C06": ("§5 C06", "Real EcuVariant layers are built for 10 service sets (shared, nested, equal and empty prefixes, differing lengths, request echoes, NRC-CONST alternatives, global negative responses); every message of each enumerated length is symbolic (prefix-tree bytes value-forked, the rest symbolic) and the set of (service, coding object, values) reported by the real DiagLayer.decode is compared per path with an independent reference matcher; own encodings, decode_response and service_groups are checked for all parameter values."),
  "C14": ("§5 C14", "The real VariantMatcher runs on real ECU-variant layers against an uninterpreted deterministic ECU (one symbolic byte string per distinct request); per path the selected variant is compared with a spec-level evaluation (first variant with a pattern all of whose expected values equal the values in the responses) over the same symbolic responses, with and without cache; only identification requests may be issued and none twice with caching."),
  "C15": ("§5 C15", "Real protocol / functional-group / base-variant / ECU-variant layers are built and finalised through Database.refresh() for a catalogue of hierarchies (which layer defines which communication parameter for which protocol; omitted values and sub-values); the content of every definition and every default of the parameter specification is an independent symbolic 32-bit number stored as its decimal text. For every layer and protocol query the solver decides that each typed accessor returns the content of exactly the definition an independent resolution of the catalogue entry selects (closest layer per parameter and protocol, protocol-specific before generic, specification default for omitted values) - which, the contents being unconstrained, holds only if that definition was selected; the list view and get_comparam are compared by object identity."),
+ "C18": ("§5 C18", "Two real EcuVariant layers are built from one service set, the second with exactly one edit, and given to the data-level API of the compare tool (Comparison.compare_diagnostic_layers / compare_databases). Numeric edits (coded value of constants behind the request prefix and in responses, explicit byte positions) are symbolic on both sides: for every pair of different old/new values the solver decides that the report names exactly the edited service, exactly the edited parameter and exactly the edited attribute, and nothing under new / deleted / renamed; a layer against an equal copy reports nothing for all values of its numbers. Structural single edits (add, delete, rename a service; bit length, data type, linked DOP, semantic, default value, NRC values; added / removed layer) and the counts of the list tool's overview have no value dimension and run as concrete witnesses of the same oracle."),
  "C17": ("§5 C17", "On every path the same encode/decode operation on the same symbolic inputs is run in strict mode, after flipping the flag at run time, and after flipping it back: strict success implies identical lenient success, lenient raises only where strict raised, and flipping back restores the strict outcome; decided by the solver for all values of the C04/C05 input spaces."),
  "C07": ("§5 C07", "The real compu-method objects (IDENTICAL, LINEAR, SCALE-LINEAR, TAB-INTP, RAT-FUNC, SCALE-RAT-FUNC, TEXTTABLE; Limit and compare_odx_values) are executed on a symbolic value (8-bit quick / 12-16-bit thorough integers, or a binary64 grid k/4) under an exact IEEE-754 binary64 model of Python float arithmetic; validity is compared with the declared limits, integer results with 'a nearest integer of the exact rational formula' in wide bit-vectors, float results with the reference formula; injective methods must round-trip. FP obligations are decided by cvc5, the rest by z3."),
  "C05": ("§5 C05", "The whole message is symbolic: every byte string of each enumerated length is decoded by the real Request.decode for every catalogue description, and by DiagLayer.decode on the shipped somersault database (lengths 0..3 quick / 0..4 thorough; the bytes that walk the prefix-tree dictionaries are value-forked by the engine, the rest stays symbolic). On every path the outcome must be a result or DecodeError, and messages shorter than the reference's minimal length must be rejected."),
@@ -29,7 +30,6 @@ NA = {
  "C10": "reference resolution is dict-of-dict lookup keyed by id/fragment strings through ElementTree (C parser): names, not values, are quantified (DESIGN.md §7)",
  "C11": "PDX write/load crosses jinja2-compiled templates, markupsafe (C), zipfile/zlib and pyexpat; the quantifier is 'every attribute of every element', an enumeration of template lines (DESIGN.md §7)",
  "C16": "state is a list plus a dict keyed by attribute names; hasattr/iskeyword need concrete str; an arbitrary-pre-state step would need a symbolic __dict__ (DESIGN.md §7)",
- "C18": "metamorphic relation over edits between two loaded databases printed through rich; no value dimension for a solver (DESIGN.md §7)",
 }
 PENDING = "claimed in DESIGN.md but the check is not built yet in this revision; nothing is asserted for it"
 props = [json.loads(l)["id"] for l in open(os.path.join(V, "properties.jsonl"))]
